@@ -16,7 +16,9 @@ trap cleanup EXIT
 mkwork $B/go.work
 export GOWORK=$B/go.work
 RACE=
+# C18 (channel parser) and C01 (library: independent books resolved concurrently) run under the race detector
 [ "$ID" = C18 ] && RACE=-race
+[ "$ID" = C01 ] && RACE=-race
 if ! (cd $VERIF_REPO/cmd/hranoprovod-cli && go build -tags verif -o $B/hr . ) > $B/build.log 2>&1; then
   echo "HARNESS-ERROR property=$ID cannot build the repository with hooks on:"; cat $B/build.log; exit 3
 fi
